@@ -296,7 +296,6 @@ class Face3D(Base2DIn3D):
 
         # assign extra properties that we know to the face
         _face._polygon2d = _polygon2d
-        _face._center = base_plane.o
         _face._centroid = base_plane.o
         _face._is_convex = True
         _face._is_self_intersecting = False
